@@ -607,6 +607,9 @@ func c03Gen(tier string, rng *rand.Rand, emit func(Case)) {
 	emit(Case{Line: "use 1 0 final b1:fd0000000000000000 r b1:650301000700 r", Kind: "directed"})
 	emit(Case{Line: "use 0 0 nil b1:fd0000000000000000 b1:650301000700 r r", Kind: "directed"})
 	emit(Case{Line: "use 0 0 final b1:fd0000000000000000 b1:" + hx(rEED(2000, false, "x\n").bytes) + " r r", Kind: "directed"})
+	for _, c := range largeResponses(rng) {
+		emit(Case{Line: fmt.Sprintf("use %d 0 final %s r", rng.Intn(2), strings.Join(c, " ")), Kind: "large-package"})
+	}
 	fullSpecs := []string{"nil", "final", "final", "fail1", "fail2", "fail3", "fail5", "fail9", "weof1", "weof2", "ueof1", "ueof3"}
 	for i := 0; i < n; i++ {
 		k := 1 + rng.Intn(4)
